@@ -2,7 +2,8 @@
 (* Trace validation for C31.  Lines:                                                *)
 (*   hdr    v = validity period of the package in whole seconds                      *)
 (*   retry  one makeToken / validateToken experiment on the real retryState (or      *)
-(*          through a real Endpoint): which context components were the same, the   *)
+(*          through a real Endpoint): how each context component related to the     *)
+(*          issued one (same, or which kind of different value), the                *)
 (*          damage kind, the time offset d = dsec s + dns ns, the result             *)
 (*   srt    one tokenForConnID observation <<key id, cid id, token id>> (identities  *)
 (*          of byte strings, interned by the driver)                                 *)
@@ -21,14 +22,13 @@ TInit ==
        /\ h.e = "hdr" /\ h.v \in 2..100000
        /\ V = h.v /\ obs = {}
 
-SameSet(r) == {n \in Components : r[n]}
-
 TRetry ==
     /\ Line.e = "retry"
     /\ Line.dmg \in Damages
+    /\ Line.ctx \in Contexts
     /\ LET d == [s |-> Line.dsec, ns |-> Line.dns] IN
        /\ IsDelta(d)
-       /\ ObservationAllowed(Expected(SameSet(Line.same), Line.dmg, d, V), Line.ok, Line.odsame)
+       /\ ObservationAllowed(Expected(Line.ctx, Line.dmg, d, V), Line.ok, Line.odsame)
     /\ UNCHANGED <<V, obs>>
 
 TReset ==
